@@ -26,6 +26,7 @@ LEVEL_TEXT = (
     "filter i to coordinate i of every member. Ensemble-permutation invariance, non-negativity and zero-at-equality "
     "are numerical clauses that are not decided."
     ' Included: values returned by user-supplied callables are never modified in place (R1b), and the MSM shape rule of C07 (the inverse-variance weight is the reciprocal of a mean of squares of the same centred moments).'
+    " (R7) per-coordinate callables built in a loop / comprehension bind the coordinate's value when built (no late-binding closure that outlives its iteration); the 18 moments are finite (nan_to_num rule of C20), which 'zero when simulated equals real' needs for constant or linear series."
 )
 TECHNIQUE = "alias/mutation analysis + effect (self-store) analysis + normal forms + order-class abstract evaluation"
 
